@@ -38,8 +38,9 @@ func (b *BitSet) Clone() *BitSet {
 // Copy the content of 'other' into this BitSet, making them equal.
 func (b *BitSet) Copy(other *BitSet) {
 	b.set = other.set
-	b.data = make([]uint64, len(other.data))
-	copy(b.data, other.data)
+	data := make([]uint64, len(other.data))
+	copy(data, other.data)
+	b.data = data // Assigned last, since other may be this BitSet
 }
 
 // Equal returns true if this BitSet is equal to 'other'.
